@@ -296,6 +296,35 @@ func c13FormsNode(c *Case, b *c13Base, ni int, level int, pool []string) {
 		}
 	}
 
+	// --- near misses of the accepted keys
+	if !sec.Free {
+		nm := c13NearMisses(sec)
+		for _, class := range c13NearClasses {
+			cands := nm[class]
+			var use []string
+			for _, k := range cands {
+				if !c13Has(keys, k) {
+					use = append(use, k)
+				}
+			}
+			if len(use) == 0 {
+				continue
+			}
+			// the clean base takes every candidate (at most 12, drawn without repetition), the others one
+			pick := 1
+			if strings.HasSuffix(b.ID, "/forms-0") || level > 0 {
+				pick = len(use)
+				if pick > 12 {
+					pick = 12
+				}
+			}
+			perm := c.R.Perm(len(use))
+			for _, xi := range perm[:pick] {
+				c13Apply(c, b, mn, c13Op{Kind: "foreign", Pos: c.R.Intn(n + 1), Key: use[xi], ValKind: valKind(), Near: class}, true, nil)
+			}
+		}
+	}
+
 	// --- file layout: the mutated key on the very last line of a file without final line break (LF / CRLF)
 	if !flow && b.c13EndsAtEOF(m) {
 		lays := func() []string {
@@ -376,4 +405,76 @@ func c13FormsFloors(r *Run) {
 			}
 		}
 	}
+}
+
+// near-miss classes of foreign keys
+var c13NearClasses = []string{"suffix-ignore", "suffix-ignore-ignore", "suffix_ignore", "plural-singular", "upper-case", "same-group-section"}
+
+// c13NearMisses derives foreign keys from the accepted keys of a fixed section. A candidate that the table
+// lists as a legal key of the section (e.g. branches-ignore from branches) is dropped.
+func c13NearMisses(sec *c13Section) map[string][]string {
+	out := map[string][]string{}
+	seen := map[string]bool{}
+	add := func(class, k string) {
+		if k == "" || c13Has(sec.Keys, k) || seen[class+"\x00"+k] {
+			return
+		}
+		seen[class+"\x00"+k] = true
+		out[class] = append(out[class], k)
+	}
+	for _, k := range sec.Keys {
+		add("suffix-ignore", k+"-ignore")
+		add("suffix-ignore-ignore", k+"-ignore-ignore")
+		add("suffix_ignore", k+"_ignore")
+		if strings.HasSuffix(k, "s") {
+			add("plural-singular", strings.TrimSuffix(k, "s"))
+		} else {
+			add("plural-singular", k+"s")
+		}
+		if sec.Name != "on" {
+			add("upper-case", strings.ToUpper(k))
+		}
+	}
+	if !sec.SynthOnly {
+		g := c13Group(sec.Name)
+		for i := range c13Sections {
+			o := &c13Sections[i]
+			if o.Free || o.Skip || o.Name == sec.Name || o.Name == "on" || c13Group(o.Name) != g {
+				continue
+			}
+			for _, k := range o.Keys {
+				add("same-group-section", k)
+			}
+		}
+	}
+	return out
+}
+
+// c13NearMissFloors: every fixed section has met every near-miss class that yields a candidate for it.
+func c13NearMissFloors(r *Run) {
+	dropped := 0
+	for i := range c13Sections {
+		sec := &c13Sections[i]
+		if sec.Free || sec.Skip {
+			continue
+		}
+		nm := c13NearMisses(sec)
+		for _, class := range c13NearClasses {
+			if len(nm[class]) == 0 {
+				continue
+			}
+			if !r.SetHas("nearmiss_covered", sec.Name+":"+class) {
+				r.Inconclusive(fmt.Sprintf("near misses: no %s near miss was judged in section %s", class, sec.Name))
+			}
+		}
+		for _, k := range sec.Keys {
+			for _, cand := range []string{k + "-ignore", k + "_ignore", strings.TrimSuffix(k, "s"), k + "s"} {
+				if cand != k && c13Has(sec.Keys, cand) {
+					dropped++
+					r.SetAdd("nearmiss_dropped_because_legal", sec.Name+":"+cand)
+				}
+			}
+		}
+	}
+	r.Extra("nearmiss_candidates_dropped_because_legal", dropped)
 }
